@@ -63,13 +63,14 @@ def coq_doc(c: dict, encoding: str) -> str:
 
 
 MANIFEST = dict(
-    technique='Rocq proof (binary DMX body round trip for versions 0-5 generic in the generated type-code/codec/stub configuration; type-code round trip; KV1 bridge round trip by nested induction) + ast translator with kernel-checked instance obligations + byte-exact vm_compute correspondence + isomorphism oracle on real graphs',
-    text='Theorems in Props/C14.v: for every configuration satisfying the named table/codec/stub conditions the attribute type byte decodes to the same (type, array?) pair; parse_bin (export_bin d) = d for every expressible document (element list with index/NULL/stub references, all 14 value types scalar and array, string table presence and index widths of versions 0-5); to_kv1 (from_kv1 t) = t for every Keyvalues tree. The configuration (VAL_TYPE_TO_IND, ARRAY_OFFSET, the comparison at the decode site, SIZES, the codec of every string read/write site, what follows the stub index, KV2 escaping/codec per interpolated field, KV2 stub creation, KV1 constants) is regenerated from dmx.py on every run and the conditions are kernel-checked. The hand models are compared with export_binary/parse_bin (byte-exact, supplied UUIDs) and from_kv1/to_kv1 on generated inputs; generated graphs (DAGs, cycles, stubs, NULLs, all types, empty arrays, 3 unicode modes, versions 1-5, KV2 flat/nested/cull_uuid) are round-tripped on the implementation and compared up to isomorphism.',
-    note='Trusted: Coq kernel + vm_compute, translate/c14_dmx.py, hand models Fmt/DmxBin.v and Fmt/DmxKv1.v (tied by differential runs), CPython struct/codecs/uuid (fixed-width values are bit patterns in the model; str.encode/decode and UUID text are parameters), breadth-first numbering of the object graph (done by the harness, checked by the byte-exact comparison). KeyValues2 text is covered by obligations on the writer templates plus search, not by a parser proof. Known finding: nested KV2 cannot express an inline element whose type is a value-type keyword.',
+    technique='Rocq proof (binary DMX body round trip for versions 0-5; type-code round trip; fixed-width value codecs through the shared struct model incl. the TIME codec over exact rationals with a proved binary64 rounding model; typed binary documents; KeyValues2 on the shared tokenizer model: reference decision tables, flat layout text -> tokens -> document -> graph (fix-up pass), nested layout with the full parser recursion by mutual nested induction; value strings through C05\'s exact %.6f model; KV1 bridge) + ast translator with 56 kernel-checked instance obligations + seven vm_compute correspondences (byte-exact binary, scalar codecs, KV2 flat / nested text exact, keyword predicate, value strings, KV1 bridge) + isomorphism oracle on real graphs',
+    text='Theorems in Props/C14.v (46; all closed under the global context): the attribute type byte decodes to the same (type, array?) pair; parse_bin (export_bin d) = d for every expressible document (versions 0-5); every fixed-width value representable in its wire type (int32, binary32 patterns, booleans, tick-exact times, colour bytes, vectors, angles in [0,360), quaternions, the 3x3 part of a matrix) is packed by the generated struct format into calcsize bytes and unpacked to the same value (Bin/Struct unpack_pack instantiated); round((k/S)*S) = k in binary64 for every 32-bit tick count, with |rn64 x - x| <= 2^-53 |x| proved for the executable rounding model, and int() instead of round() refuted by a computed witness; typed documents survive lower -> export_bin -> parse_bin -> lift; a KV2 reference decision table meeting its condition writes NULL / stub / root / inline exactly as the format needs and the two sites agree (dropping `or is_stub` refuted); the flat-layout text of any document re-tokenises (C02 quoted_embedding composed) and re-parses to the document, and linking UUID references gives back the graph (sharing, cycles, NULL, stubs) for pairwise distinct ids; the nested-layout text re-parses to the tree of inline blocks at any depth provided no inline element has an attribute type keyword as its type (refuted otherwise: the defect repaired in this round); FLOAT / vector component text denotes the value rounded half-even at 6 places, vector texts split into their components, int and colour texts parse back; to_kv1 (from_kv1 t) = t. All configurations (type codes, sizes, struct formats, TIME rounding function and scales, MATRIX slot layout, codec per string site, stub payload, KV2 escaping / codec per field, the two reference if-chains, the keyword-root rule, Tokenizer kwargs, ValueType keywords, _fmt_float and the vector / colour string converters, KV1 constants) are regenerated from dmx.py (tokenizer tables from tokenizer.py) on every run and the premises are kernel-checked as named obligations. The models are compared with the implementation on generated inputs on every run; generated graphs (DAGs, cycles, stubs, NULLs, all types, empty arrays, 3 unicode modes, versions 1-5, KV2 flat/nested/cull_uuid) are round-tripped through Element.parse and compared up to isomorphism.',
+    note='Trusted: Coq kernel + vm_compute, translate/c14_dmx.py and translate/c02_tables.py, the hand models Fmt/DmxBin.v, Fmt/DmxKv1.v, Fmt/DmxScalar.v, Fmt/DmxKv2.v, Fmt/DmxKv2Nested.v, Fmt/DmxValText.v (each tied by a differential run on every run) and the shared Bin/Struct.v, Text/Tokenizer.v, Num/Dec6.v; CPython codecs / uuid (str.encode/decode and UUID text are parameters or opaque texts); binary64 arithmetic is rn64 of the exact result (no exponent range; compared with CPython float * and / on every run); a binary32 value is its bit pattern (harness converts with struct "<f"); FrozenAngle normalisation identity on [0,360) is a hypothesis checked on sampled patterns; breadth-first numbering of the object graph is done by the harness and checked by the byte-exact comparison. Not modelled (oracle only): which elements export_kv2 makes roots in the nested layout (recomputed by the harness for the text comparison; the keyword rule is an obligation + predicate correspondence) and the graph <-> block-tree step of the nested layout, float(text) / str(float) / hex / bool strings, malformed KV2 input, the DMX header line and unicode flag, format name/version. No known finding left: the round-1 finding (inline element whose type is an attribute type keyword) is repaired in the repo branch.',
 )
 
 IMPORTS = ['Coq.NArith.NArith', 'Coq.ZArith.ZArith', 'Coq.Lists.List', 'Coq.Bool.Bool', 'SV.Fmt.DmxCodes', 'SV.Fmt.DmxBin',
-           'SV.Fmt.DmxKv1', 'SV.Gen.DmxCodes_gen']
+           'SV.Fmt.DmxKv1', 'SV.Fmt.DmxScalar', 'SV.Text.Str', 'SV.Text.Tokenizer', 'SV.Text.TokGen', 'SV.Fmt.DmxKv2',
+           'SV.Num.Dec6', 'SV.Fmt.DmxValText', 'SV.Fmt.DmxHeader', 'SV.Gen.DmxCodes_gen', 'SV.Fmt.DmxKv2Inst']
 PRE_BIN = '''Import ListNotations. Open Scope N_scope.
 Definition idenc (_ : enc) (s : str) : bytes := s.
 Definition iddec (_ : enc) (b : bytes) : option str := Some b.
@@ -191,7 +192,7 @@ CORPUS: list[tuple[str, dict, list[dict]]] = [
 def corr_binary(ck: Ck) -> None:
     """Model export vs export_binary (byte-exact) and model parse of the implementation's bytes vs parse_bin."""
     from srctools import dmx
-    n = ck.budget(240, 3000)
+    n = ck.budget(180, 3000)
     cases = []
     corpus = [(s, m) for _, s, ms in CORPUS for m in ms if m['fmt'] == 'binary']
     for i in range(n):
@@ -241,6 +242,733 @@ def corr_binary(ck: Ck) -> None:
         ck.tie_broken.append('correspondence binary (Fmt/DmxBin.v vs export_binary/parse_bin)')
         ck.extra['binary_disagreement'] = {'mode': cases[i][0], 'spec': cases[i][1],
                                            'kind': {1: 'model export bytes differ', 2: 'model parse differs'}.get(code, code)}
+
+
+
+# ------------------------------------------------------------------------------------------------ scalar codecs
+IMPORTS_SC = ['Coq.NArith.NArith', 'Coq.ZArith.ZArith', 'Coq.QArith.QArith', 'Coq.Lists.List', 'Coq.Bool.Bool', 'Coq.Strings.String',
+              'SV.Bin.Struct', 'SV.Fmt.DmxCodes', 'SV.Fmt.DmxScalar', 'SV.Gen.DmxCodes_gen']
+PRE_SC = """Import ListNotations. Open Scope N_scope.
+Fixpoint leqb {A} (f : A -> A -> bool) (a b : list A) : bool :=
+  match a, b with [], [] => true | x :: a', y :: b' => f x y && leqb f a' b' | _, _ => false end.
+Definition sval_eqb (a b : sval) : bool := match a, b with
+  | SvInt x, SvInt y => (x =? y)%Z | SvFloat x, SvFloat y => x =? y | SvBool x, SvBool y => Bool.eqb x y
+  | SvTime x, SvTime y => Qeq_bool x y
+  | SvColor r g b a, SvColor r' g' b' a' => ((r =? r') && (g =? g') && (b =? b') && (a =? a'))%Z
+  | SvVec x, SvVec y => leqb N.eqb x y | SvMat x, SvMat y => leqb N.eqb x y | _, _ => false end.
+Definition obytes_eqb (a b : option (list N)) := match a, b with Some x, Some y => leqb N.eqb x y | None, None => true | _, _ => false end.
+Definition osval_eqb (a b : option sval) := match a, b with Some x, Some y => sval_eqb x y | None, None => true | _, _ => false end.
+(* per case: 0 ok, 1 model bytes differ from TYPE_CONVERT[t, BINARY], 2 model value differs from TYPE_CONVERT[BINARY, t] *)
+Definition chks (c : vtype * sval * option (list N) * option sval) : N := let '(t, v, b, back) := c in
+  if obytes_eqb (encode_sval fmul64 gen_scalar t v) b
+  then (match b with
+        | Some bs => if osval_eqb (decode_sval fdiv64 (fun x => x) gen_scalar t bs) back then 0 else 2
+        | None => 0 end)
+  else 1.
+Fixpoint bad_idx {A} (f : A -> N) (n : N) (l : list A) : list N := match l with [] => [] | x :: r => (if f x =? 0 then [] else [n * 10 + f x]) ++ bad_idx f (n + 1) r end.
+"""
+
+
+def _f32_bits(x: float) -> int:
+    return struct.unpack('<I', struct.pack('<f', x))[0]
+
+
+def _f32_val(bits: int) -> float:
+    return struct.unpack('<f', struct.pack('<I', bits))[0]
+
+
+def _coq_q(x: float) -> str:
+    n, d = float(x).as_integer_ratio()
+    return f'(Qmake ({n})%Z {d}%positive)'
+
+
+def _rand_f32(rng, below_360: bool = False) -> int:
+    """A binary32 bit pattern: finite, no NaN (a NaN's payload need not survive float<->double conversion)."""
+    if below_360:
+        return rng.choice([0, 1, 0x43B3FFFF, 0x3F800000, rng.randrange(0, 0x43B40000), _f32_bits(rng.uniform(0, 359.99))])
+    r = rng.random()
+    if r < 0.1:
+        return rng.choice([0, 0x80000000, 1, 0x80000001, 0x7F7FFFFF, 0xFF7FFFFF, 0x7F800000, 0xFF800000, 0x3F800000, 0x00800000])
+    if r < 0.5:
+        return _f32_bits(rng.uniform(-1000, 1000))
+    b = rng.randrange(0, 1 << 32)
+    return b if (b & 0x7F800000) != 0x7F800000 else b & 0x807FFFFF
+
+
+def sval_of_py(typ: str, v) -> str:
+    """A Python value of the given DMX type as a Coq [sval] (floats that came from binary32 as their bit pattern)."""
+    if typ == 'INTEGER':
+        return f'(SvInt ({int(v)})%Z)'
+    if typ == 'FLOAT':
+        return f'(SvFloat {_f32_bits(v)})'
+    if typ == 'BOOL':
+        return f'(SvBool {"true" if v else "false"})'
+    if typ == 'TIME':
+        return f'(SvTime {_coq_q(v.value)})'
+    if typ == 'COLOR':
+        return f'(SvColor ({v.r})%Z ({v.g})%Z ({v.b})%Z ({v.a})%Z)'
+    if typ == 'MATRIX':
+        return '(SvMat [' + ';'.join(str(_f32_bits(v[i, j])) for i in range(3) for j in range(3)) + '])'
+    comps = [v.pitch, v.yaw, v.roll] if typ == 'ANGLE' else ([v.x, v.y, v.z] if typ == 'VEC3' else list(v))
+    return '(SvVec [' + ';'.join(str(_f32_bits(c)) for c in comps) + '])'
+
+
+def gen_scalar_value(rng, typ: str):
+    """(python value, exact?) — exact means representable in the wire type."""
+    from srctools import dmx
+    from srctools.math import FrozenAngle, FrozenVec, Matrix
+    if typ == 'INTEGER':
+        return rng.choice([0, 1, -1, 2 ** 31 - 1, -2 ** 31, 2 ** 31, -2 ** 31 - 1, rng.randrange(-2 ** 31, 2 ** 31), rng.randrange(-70000, 70000)])
+    if typ == 'FLOAT':
+        return _f32_val(_rand_f32(rng))
+    if typ == 'BOOL':
+        return rng.random() < 0.5
+    if typ == 'TIME':
+        r = rng.random()
+        if r < 0.6:       # tick-exact, incl. the int32 bounds
+            k = rng.choice([rng.randrange(-2 ** 31, 2 ** 31), rng.randrange(-100000, 100000), rng.randrange(0, 100), 2 ** 31 - 1, -2 ** 31])
+            return dmx.Time(k / 10000.0)
+        if r < 0.8:       # halfway between ticks and other decimal fractions
+            return dmx.Time(rng.choice([0.00005, 0.00015, 0.00025, -0.00005, 1.23455, 2.5e-5, rng.randrange(-10 ** 7, 10 ** 7) / 100000.0]))
+        return dmx.Time(rng.uniform(-200000.0, 200000.0))
+    if typ == 'COLOR':
+        return dmx.Color(*[rng.choice([0, 255, rng.randrange(256)]) for _ in range(4)])
+    if typ == 'ANGLE':
+        return FrozenAngle(*[_f32_val(_rand_f32(rng, True)) for _ in range(3)])
+    if typ == 'VEC3':
+        return FrozenVec(*[_f32_val(_rand_f32(rng)) for _ in range(3)])
+    if typ == 'MATRIX':
+        m = Matrix()
+        for i in range(3):
+            for j in range(3):
+                m[i, j] = _f32_val(_rand_f32(rng))
+        return m.freeze()
+    cls = {'VEC2': dmx.Vec2, 'VEC4': dmx.Vec4, 'QUATERNION': dmx.Quaternion}[typ]
+    return cls(*[_f32_val(_rand_f32(rng)) for _ in range({'VEC2': 2, 'VEC4': 4, 'QUATERNION': 4}[typ])])
+
+
+SCALAR_TYPES = ['INTEGER', 'FLOAT', 'BOOL', 'TIME', 'COLOR', 'VEC2', 'VEC3', 'VEC4', 'ANGLE', 'QUATERNION', 'MATRIX']
+
+
+def corr_scalar(ck: Ck) -> None:
+    """Fmt/DmxScalar.v encode_sval/decode_sval (struct model + rn64 binary64 rounding) vs TYPE_CONVERT[t, BINARY] and
+    TYPE_CONVERT[BINARY, t] of the implementation, on generated values of every fixed-width type."""
+    from srctools import dmx
+    n = ck.budget(330, 4400)
+    cases = []
+    for i in range(n):
+        typ = SCALAR_TYPES[i % len(SCALAR_TYPES)]
+        vt = dmx.ValueType[typ]
+        v = gen_scalar_value(ck.rng, typ)
+        try:
+            b = dmx.TYPE_CONVERT[vt, dmx.ValueType.BINARY](v)
+            bl = f'(Some {_nl(b)})'
+        except (struct.error, OverflowError):
+            b, bl = None, 'None'
+            ck.count('corr_scalar_pack_errors')
+        if b is not None:
+            try:
+                back = dmx.TYPE_CONVERT[dmx.ValueType.BINARY, vt](b)
+                kl = f'(Some {sval_of_py(typ, back)})'
+            except Exception:
+                kl = 'None'
+        else:
+            kl = 'None'
+        cases.append((typ, repr(v), f'({COQ_TYPE[typ]}, {sval_of_py(typ, v)}, {bl}, {kl})'))
+        ck.count('corr_scalar_cases')
+        ck.hist('corr_scalar_type', typ)
+        ck.seen(('sc', typ, repr(v)))
+    bad = []
+    for lo in range(0, len(cases), 440):
+        vals = ck.coq_eval(IMPORTS_SC, [f'bad_idx chks 0 {coq_list(x[2] for x in cases[lo:lo + 440])}'], name='scalar', preamble=PRE_SC)
+        if vals is None:
+            ck.obligation('correspondence:scalar-codecs', False, 'model could not be evaluated')
+            ck.tie_broken.append('correspondence scalar codecs: model evaluation failed')
+            return
+        bad += [(lo + v // 10, v % 10) for v in parse_coq_N_list(vals[0])]
+    ck.obligation('correspondence:scalar-codecs', not bad,
+                  f'{len(cases)} values of the 11 fixed-width types: Fmt/DmxScalar.v encode_sval/decode_sval (Bin/Struct.v pack/unpack, '
+                  f'rn64 binary64 rounding for TIME) vs TYPE_CONVERT[t, BINARY] / TYPE_CONVERT[BINARY, t]: {len(bad)} disagreements')
+    ck.sample({'scalar_codec_case': cases[-1][:2]})
+    if bad:
+        i, code = bad[0]
+        ck.tie_broken.append('correspondence scalar codecs (Fmt/DmxScalar.v vs TYPE_CONVERT binary conversions)')
+        ck.extra['scalar_disagreement'] = {'type': cases[i][0], 'value': cases[i][1],
+                                           'kind': {1: 'model bytes differ', 2: 'model decoded value differs'}.get(code, code)}
+
+
+def angle_norm_identity(ck: Ck) -> None:
+    """The hypothesis of scalar_codec_roundtrip about FrozenAngle: a component that is a binary32 value in [0, 360) is
+    unchanged by the constructor.  Checked on the boundaries and on sampled patterns."""
+    from srctools.math import FrozenAngle
+    pats = [0, 1, 0x00800000, 0x3F800000, 0x43B3FFFF, 0x43B3FFFE, 0x43340000] + [ck.rng.randrange(0, 0x43B40000) for _ in range(ck.budget(2000, 20000))]
+    bad = []
+    for p_ in pats:
+        x = _f32_val(p_)
+        a = FrozenAngle(x, x, x)
+        if not (_f32_bits(a.pitch) == p_ and a.pitch == x and a.yaw == x and a.roll == x):
+            bad.append(p_)
+    ck.count('angle_norm_patterns', len(pats))
+    ck.obligation('angle-normalisation-identity-below-360', not bad,
+                  f'FrozenAngle(x, x, x) keeps x for {len(pats)} binary32 patterns in [0, 360) (boundaries + sample): {len(bad)} changed {bad[:3]}')
+
+
+
+# ------------------------------------------------------------------------------------------------ KeyValues2 text
+IMPORTS_KV2 = ['Coq.NArith.NArith', 'Coq.Lists.List', 'Coq.Bool.Bool', 'SV.Text.Str', 'SV.Text.Tokenizer', 'SV.Text.TokGen',
+               'SV.Fmt.DmxKv2', 'SV.Gen.DmxCodes_gen', 'SV.Fmt.DmxKv2Inst']
+PRE_KV2 = """Import ListNotations. Open Scope N_scope.
+Fixpoint leqb {A} (f : A -> A -> bool) (a b : list A) : bool :=
+  match a, b with [], [] => true | x :: a', y :: b' => f x y && leqb f a' b' | _, _ => false end.
+Definition kitem_eqb (a b : kitem) := match a, b with KStr x, KStr y => str_eqb x y | KNull, KNull => true | KRef x, KRef y => str_eqb x y | _, _ => false end.
+Definition kattr_eqb (a b : kattr) := str_eqb (ka_name a) (ka_name b) && str_eqb (ka_type a) (ka_type b) && Bool.eqb (ka_arr a) (ka_arr b) && leqb kitem_eqb (ka_items a) (ka_items b).
+Definition ostr_eqb (a b : option str) := match a, b with Some x, Some y => str_eqb x y | None, None => true | _, _ => false end.
+Definition kelem_eqb (a b : kelem) := str_eqb (ke_type a) (ke_type b) && ostr_eqb (ke_id a) (ke_id b) && str_eqb (ke_name a) (ke_name b) && leqb kattr_eqb (ke_attrs a) (ke_attrs b).
+Definition okdoc_eqb (a b : option kdoc) := match a, b with Some x, Some y => leqb kelem_eqb x y | None, None => true | _, _ => false end.
+Definition gref_eqb (a b : gref) := match a, b with GElem i, GElem j => Nat.eqb i j | GNull, GNull => true | GStub x, GStub y => str_eqb x y | _, _ => false end.
+Definition gitem_eqb (a b : gitem) := match a, b with GStr x, GStr y => str_eqb x y | GRef x, GRef y => gref_eqb x y | _, _ => false end.
+Definition gattr_eqb (a b : gattr) := str_eqb (ga_name a) (ga_name b) && str_eqb (ga_type a) (ga_type b) && Bool.eqb (ga_arr a) (ga_arr b) && leqb gitem_eqb (ga_items a) (ga_items b).
+Definition gelem_eqb (a b : gelem) := str_eqb (ge_type a) (ge_type b) && str_eqb (ge_id a) (ge_id b) && str_eqb (ge_name a) (ge_name b) && leqb gattr_eqb (ge_attrs a) (ge_attrs b).
+Definition ogdoc_eqb (a b : option gdoc) := match a, b with Some x, Some y => leqb gelem_eqb x y | None, None => true | _, _ => false end.
+(* per case: 0 ok, 1 model text differs from export_kv2(flat=True), 2 model parse of that text differs from parse_kv2,
+   3 the document is outside doc_ok (generator bug), 4 the linked graph (fix-up pass) differs from the parsed object graph,
+   5 model parse of the re-formatted text (other line ends / indentation, comments, trailing commas) differs from parse_kv2 *)
+Definition chk2 (c : kdoc * str * option kdoc * option gdoc * str * option kdoc) : N := let '(d, text, back, gback, text2, back2) := c in
+  if negb (doc_ok gen_tables gen_vtnames d) then 3
+  else if str_eqb (gen_render_doc d) text
+       then (if okdoc_eqb (gen_parse_text text) back
+             then (if ogdoc_eqb (match gen_parse_text text with Some x => link x | None => None end) gback
+                   then (if okdoc_eqb (gen_parse_text text2) back2 then 0 else 5) else 4)
+             else 2)
+       else 1.
+Fixpoint bad_idx {A} (f : A -> N) (n : N) (l : list A) : list N := match l with [] => [] | x :: r => (if f x =? 0 then [] else [n * 10 + f x]) ++ bad_idx f (n + 1) r end.
+"""
+
+
+def _cps(x: str) -> str:
+    return '[' + ';'.join(str(ord(c)) for c in x) + ']'
+
+
+def kdoc_of(root, conv_strings: bool = True) -> list:
+    """The string-level document of a real element graph, elements in the order export_kv2 lists them (breadth first in
+    attribute order, stubs and NULL are not elements): [(type, uuid text, name, [(attr name, type keyword, is_array,
+    [item])])], item = ('S', text) | ('N',) | ('R', uuid text).  Value strings come from TYPE_CONVERT[t, STRING]."""
+    from srctools import dmx
+    order, seen = [root], {id(root)}
+    out = []
+    for el in order:
+        attrs = []
+        for key, attr in el._members.items():
+            if attr.name == 'name':
+                continue
+            raw = attr._value if attr.is_array else [attr._value]
+            items = []
+            for v in raw:
+                if attr.type is dmx.ValueType.ELEMENT:
+                    if v.is_null:
+                        items.append(('N',))
+                    else:
+                        items.append(('R', str(v.uuid)))
+                        if not v.is_stub and id(v) not in seen:
+                            seen.add(id(v))
+                            order.append(v)
+                else:
+                    items.append(('S', dmx.TYPE_CONVERT[attr.type, dmx.ValueType.STRING](v)))
+            attrs.append((attr.name, attr.type.value, bool(attr.is_array), items))
+        out.append((el.type, str(el.uuid), el.name, attrs))
+    return out
+
+
+def gdoc_of(root) -> list:
+    """The object graph of a real element tree at the string level: like kdoc_of, but an element reference is the
+    index of the element (by object identity, breadth first), a stub keeps its UUID text."""
+    from srctools import dmx
+    order, idx = [root], {id(root): 0}
+    out = []
+    for el in order:
+        attrs = []
+        for key, attr in el._members.items():
+            if attr.name == 'name':
+                continue
+            raw = attr._value if attr.is_array else [attr._value]
+            items = []
+            for v in raw:
+                if attr.type is dmx.ValueType.ELEMENT:
+                    if v.is_null:
+                        items.append(('N',))
+                    elif v.is_stub:
+                        items.append(('T', str(v.uuid)))
+                    else:
+                        if id(v) not in idx:
+                            idx[id(v)] = len(order)
+                            order.append(v)
+                        items.append(('E', idx[id(v)]))
+                else:
+                    items.append(('S', dmx.TYPE_CONVERT[attr.type, dmx.ValueType.STRING](v)))
+            attrs.append((attr.name, attr.type.value, bool(attr.is_array), items))
+        out.append((el.type, str(el.uuid), el.name, attrs))
+    return out
+
+
+def coq_gdoc(g: list) -> str:
+    def item(i):
+        return {'N': lambda: '(GRef GNull)', 'S': lambda: f'(GStr {_cps(i[1])})', 'E': lambda: f'(GRef (GElem {i[1]}))',
+                'T': lambda: f'(GRef (GStub {_cps(i[1])}))'}[i[0]]()
+    els = []
+    for typ, uid, name, attrs in g:
+        al = [f'{{| ga_name := {_cps(n)}; ga_type := {_cps(t)}; ga_arr := {"true" if arr else "false"}; ga_items := {coq_list(item(i) for i in its)} |}}'
+              for n, t, arr, its in attrs]
+        els.append(f'{{| ge_type := {_cps(typ)}; ge_id := {_cps(uid)}; ge_name := {_cps(name)}; ge_attrs := {coq_list(al)} |}}')
+    return coq_list(els)
+
+
+def coq_kdoc(d: list) -> str:
+    def item(i):
+        return 'KNull' if i[0] == 'N' else (f'(KStr {_cps(i[1])})' if i[0] == 'S' else f'(KRef {_cps(i[1])})')
+    els = []
+    for typ, uid, name, attrs in d:
+        al = [f'{{| ka_name := {_cps(n)}; ka_type := {_cps(t)}; ka_arr := {"true" if arr else "false"}; ka_items := {coq_list(item(i) for i in its)} |}}'
+              for n, t, arr, its in attrs]
+        els.append(f'{{| ke_type := {_cps(typ)}; ke_id := Some {_cps(uid)}; ke_name := {_cps(name)}; ke_attrs := {coq_list(al)} |}}')
+    return coq_list(els)
+
+
+KEYWORD_PROBES = ['int', 'Int', 'INT', 'element', 'Element', 'elementid', 'ElementID', 'elementid_array', 'int_array', 'INT_ARRAY',
+                  'Float_Array', '_array', 'int_array_array', 'string', 'vmatrix', 'qangle_array', 'DmElement', 'T', '', 'integer',
+                  'vector5', 'boolean', 'time ', ' int', 'İnt', 'ınt', 'ſtring', 'ELEMENTİD', 'bınary', 'color_Array', 'color_arraY',
+                  'x_array', 'element_arrays', 'quaternion', 'Vector2', 'VECTOR4_ARRAY', 'elementid ', 'ﬂoat']
+
+
+def corr_keyword_predicate(ck: Ck) -> None:
+    """Fmt/DmxKv2.v type_is_keyword (the tests the KV2 parser makes on a type token) vs dmx._kv2_type_is_keyword."""
+    from srctools import dmx
+    fn = getattr(dmx, '_kv2_type_is_keyword', None)
+    if fn is None:
+        ck.notes.append('dmx._kv2_type_is_keyword does not exist: predicate correspondence skipped (obligation kv2_keyword_typed_elements_written_at_root decides)')
+        return
+    probes = list(KEYWORD_PROBES)
+    for _ in range(ck.budget(60, 600)):
+        base = ck.rng.choice([v.value for v in dmx.ValueType] + ['elementid', 'foo', 'Dm'])
+        s_ = ''.join(ck.rng.choice([c.upper(), c, c]) for c in base) + ck.rng.choice(['', '', '_array', '_ARRAY', '_arrays', ' '])
+        probes.append(s_)
+    want = [bool(fn(s_)) for s_ in probes]
+    vals = ck.coq_eval(IMPORTS_KV2, ['map (type_is_keyword gen_fold gen_vtnames) ' + coq_list(_cps(s_) for s_ in probes)], name='kwpred',
+                       preamble='Import ListNotations. Open Scope N_scope.')
+    got = None if vals is None else [x.strip() == 'true' for x in vals[0].strip('[] ').split(';')]
+    ok = got == want
+    ck.count('keyword_predicate_probes', len(probes))
+    ck.obligation('correspondence:kv2-keyword-predicate', ok,
+                  f'{len(probes)} type names: Fmt/DmxKv2.v type_is_keyword vs dmx._kv2_type_is_keyword'
+                  + ('' if ok else f': first difference {next((p_ for p_, a, b_ in zip(probes, got or [], want) if a != b_), None)!r}'))
+    if not ok:
+        ck.tie_broken.append('correspondence KV2 keyword predicate')
+
+
+def reformat_kv2(rng, text: str) -> str:
+    """The same KeyValues2 document in another layout: LF or CR LF per line, other indentation, blank lines, // comment
+    lines, a comma after the last array item.  Safe line by line: escape_text leaves no raw line break inside quotes."""
+    lines = text.split('\r\n')
+    out = []
+    for i, ln in enumerate(lines):
+        body = ln.lstrip('\t')
+        depth = len(ln) - len(body)
+        if body:
+            body = rng.choice(['\t' * depth, ' ' * depth, '', '  \t' * depth]) + body
+        nxt = lines[i + 1].lstrip('\t') if i + 1 < len(lines) else ''
+        if nxt == ']' and body.rstrip().endswith(('"', '}')) and rng.random() < 0.5:
+            body += ','
+        out.append(body)
+        if rng.random() < 0.12:
+            out.append(rng.choice(['', '   ', '// a comment "with" { brackets ] and \\ backslash', '\t//', '//"id" "elementid" "x"']))
+    return ''.join(ln + rng.choice(['\n', '\r\n', '\n']) for ln in out)
+
+
+def corr_kv2(ck: Ck) -> None:
+    """Fmt/DmxKv2.v writer and parser (on the regenerated tokenizer tables) vs export_kv2(flat=True) and parse_kv2:
+    the model's text equals the exported text after the header line, and the model's parse of that text equals the
+    string-level document of what Element.parse returns."""
+    from srctools import dmx
+    n = ck.budget(24, 400)
+    cases = []
+    corpus = [s for _, s, ms in CORPUS if any(m['fmt'] == 'kv2' for m in ms)]
+    for i in range(n):
+        uni = ck.rng.choice(['ascii', 'format', 'silent'])
+        spec = corpus[i] if i < len(corpus) else U.gen_spec(ck.rng, uni != 'ascii')
+        elems = U.build(spec)
+        if any(a.name.casefold() == 'name' and a.name != 'name' for e in elems for a in e._members.values()):
+            continue
+        buf = io.BytesIO()
+        try:
+            elems[0].export_kv2(buf, flat=True, unicode=uni)
+        except Exception:
+            ck.count('corr_kv2_export_error')
+            continue
+        data = buf.getvalue()
+        head, _, body = data.partition(b'\r\n')
+        text = body.decode('utf8' if uni != 'ascii' else 'ascii')
+        d = kdoc_of(elems[0])
+        try:
+            got, _, _ = dmx.Element.parse(io.BytesIO(data), unicode=(uni == 'silent'))
+            back = f'(Some {coq_kdoc(kdoc_of(got))})'
+            gback = f'(Some {coq_gdoc(gdoc_of(got))})'
+        except Exception:
+            back = gback = 'None'
+            ck.count('corr_kv2_impl_parse_error')
+        text2 = reformat_kv2(ck.rng, text)
+        try:
+            got2, _, _ = dmx.Element.parse(io.BytesIO(head + b'\r\n' + text2.encode('utf8' if uni != 'ascii' else 'ascii')), unicode=(uni == 'silent'))
+            back2 = f'(Some {coq_kdoc(kdoc_of(got2))})'
+        except Exception:
+            back2 = 'None'
+            ck.count('corr_kv2_impl_reformat_parse_error')
+        cases.append((spec, uni, f'({coq_kdoc(d)}, {_cps(text)}, {back}, {gback}, {_cps(text2)}, {back2})'))
+        ck.count('corr_kv2_cases')
+        ck.hist('corr_kv2_text_chars', len(text) // 500 * 500)
+        if len(d) > 1 or d[0][3]:
+            ck.seen(('k2', uni, repr(d)))
+    bad = []
+    for lo in range(0, len(cases), 45):
+        vals = ck.coq_eval(IMPORTS_KV2, [f'bad_idx chk2 0 {coq_list(x[2] for x in cases[lo:lo + 45])}'], name='kv2', preamble=PRE_KV2)
+        if vals is None:
+            ck.obligation('correspondence:kv2-flat-text', False, 'model could not be evaluated')
+            ck.tie_broken.append('correspondence KV2 flat text: model evaluation failed')
+            return
+        bad += [(lo + v // 10, v % 10) for v in parse_coq_N_list(vals[0])]
+    ck.obligation('correspondence:kv2-flat-text', not bad,
+                  f'{len(cases)} documents: Fmt/DmxKv2.v render_doc vs export_kv2(flat=True) text (exact), parse_text of that text vs '
+                  f'the string-level document of Element.parse, link (fix-up pass) vs the parsed object graph: {len(bad)} disagreements')
+    if cases:
+        ck.sample({'kv2_flat_case': {'unicode': cases[-1][1], 'spec': cases[-1][0]}})
+    if bad:
+        i, code = bad[0]
+        ck.tie_broken.append('correspondence KV2 flat text (Fmt/DmxKv2.v vs export_kv2/parse_kv2)')
+        ck.extra['kv2_disagreement'] = {'spec': cases[i][0], 'unicode': cases[i][1],
+                                        'kind': {1: 'model text differs from export_kv2', 2: 'model parse differs from parse_kv2',
+                                                 3: 'generated document outside doc_ok',
+                                                 4: 'model link (fix-up pass) differs from the parsed object graph',
+                                                 5: 'model parse of the re-formatted text differs from parse_kv2'}.get(code, code)}
+
+
+
+# ------------------------------------------------------------------------------------------------ KeyValues2, nested layout
+IMPORTS_KV2N = IMPORTS_KV2 + ['SV.Fmt.DmxKv2Nested']
+PRE_KV2N = """Import ListNotations. Open Scope N_scope.
+Fixpoint leqb {A} (f : A -> A -> bool) (a b : list A) : bool :=
+  match a, b with [], [] => true | x :: a', y :: b' => f x y && leqb f a' b' | _, _ => false end.
+Definition ostr_eqb (a b : option str) := match a, b with Some x, Some y => str_eqb x y | None, None => true | _, _ => false end.
+Fixpoint nelem_eqb (a b : nelem) {struct a} : bool :=
+  match a, b with NElem t i n l, NElem t' i' n' l' =>
+    str_eqb t t' && ostr_eqb i i' && str_eqb n n' &&
+    (fix go (x y : list nattr) : bool := match x, y with [], [] => true | p :: x', q :: y' => nattr_eqb p q && go x' y' | _, _ => false end) l l' end
+with nattr_eqb (a b : nattr) {struct a} : bool :=
+  match a, b with NAttr n t r l, NAttr n' t' r' l' =>
+    str_eqb n n' && str_eqb t t' && Bool.eqb r r' &&
+    (fix go (x y : list nitem) : bool := match x, y with [], [] => true | p :: x', q :: y' => nitem_eqb p q && go x' y' | _, _ => false end) l l' end
+with nitem_eqb (a b : nitem) {struct a} : bool :=
+  match a, b with NStr x, NStr y => str_eqb x y | NNull, NNull => true | NRef x, NRef y => str_eqb x y
+                | NInline x, NInline y => nelem_eqb x y | _, _ => false end.
+Definition ondoc_eqb (a b : option ndoc) := match a, b with Some x, Some y => leqb nelem_eqb x y | None, None => true | _, _ => false end.
+(* per case: 0 ok, 1 model text differs from export_kv2(flat=False), 2 model parse differs from parse_kv2, 3 outside ndoc_ok *)
+Definition chk3 (c : ndoc * str * option ndoc * str * option ndoc) : N := let '(d, text, back, text2, back2) := c in
+  if negb (ndoc_ok gen_tables gen_fold gen_vtnames d) then 3
+  else if str_eqb (rendern_doc gen_tables d) text
+       then (if ondoc_eqb (parsen_text gen_tables gen_kv2_opts gen_fold gen_vtnames text) back
+             then (if ondoc_eqb (parsen_text gen_tables gen_kv2_opts gen_fold gen_vtnames text2) back2 then 0 else 5) else 2)
+       else 1.
+Fixpoint bad_idx {A} (f : A -> N) (n : N) (l : list A) : list N := match l with [] => [] | x :: r => (if f x =? 0 then [] else [n * 10 + f x]) ++ bad_idx f (n + 1) r end.
+"""
+
+
+def _is_keyword_type(t: str) -> bool:
+    """Harness copy of the rule: would the KV2 parser read this element type as an attribute type keyword?"""
+    f = t.casefold()
+    if f == 'elementid':
+        return True
+    if f.endswith('_array'):
+        f = f[:-6]
+    return f in U.VALUE_TYPE_NAMES
+
+
+def ntree_of(root, cull: bool) -> list:
+    """The nested-layout document of a real element graph: which elements are roots is recomputed here (used more than
+    once, keyword type, or the root itself — independent of export_kv2), the others are inline where they are used.
+    Element = (type, uuid text or None, name, [(attr name, type keyword, is_array, [item])]),
+    item = ('S', text) | ('N',) | ('R', uuid text) | ('I', element)."""
+    from srctools import dmx
+    elements, use = [root], {root.uuid: 1}
+    for el in elements:
+        for attr in el.values():
+            if attr.type is not dmx.ValueType.ELEMENT:
+                continue
+            for sub in (attr._value if attr.is_array else [attr._value]):
+                if isinstance(sub, dmx.StubElement):
+                    continue
+                if sub.uuid not in use:
+                    use[sub.uuid] = 1
+                    elements.append(sub)
+                else:
+                    use[sub.uuid] += 1
+    roots = {u for u, c in use.items() if c > 1} | {e.uuid for e in elements if _is_keyword_type(e.type)} | {root.uuid}
+
+    def mk(el):
+        attrs = []
+        for attr in el.values():
+            if attr.name == 'name':
+                continue
+            items = []
+            for v in (attr._value if attr.is_array else [attr._value]):
+                if attr.type is dmx.ValueType.ELEMENT:
+                    if v.is_null:
+                        items.append(('N',))
+                    elif v.is_stub or v.uuid in roots:
+                        items.append(('R', str(v.uuid)))
+                    else:
+                        items.append(('I', mk(v)))
+                else:
+                    items.append(('S', dmx.TYPE_CONVERT[attr.type, dmx.ValueType.STRING](v)))
+            attrs.append((attr.name, attr.type.value, bool(attr.is_array), items))
+        return (el.type, str(el.uuid) if (not cull or el.uuid in roots) else None, el.name, attrs)
+    return [mk(e) for e in elements if e.uuid in roots]
+
+
+def coq_nelem(e) -> str:
+    def item(i):
+        if i[0] == 'N':
+            return 'NNull'
+        if i[0] == 'S':
+            return f'(NStr {_cps(i[1])})'
+        if i[0] == 'R':
+            return f'(NRef {_cps(i[1])})'
+        return f'(NInline {coq_nelem(i[1])})'
+    typ, uid, name, attrs = e
+    al = [f'(NAttr {_cps(n)} {_cps(t)} {"true" if arr else "false"} {coq_list(item(i) for i in its)})' for n, t, arr, its in attrs]
+    return f'(NElem {_cps(typ)} {"None" if uid is None else "(Some " + _cps(uid) + ")"} {_cps(name)} {coq_list(al)})'
+
+
+def corr_kv2_nested(ck: Ck) -> None:
+    """Fmt/DmxKv2Nested.v writer and parser vs export_kv2(flat=False, cull_uuid) and parse_kv2: exact text, and the
+    parsed tree of blocks (inline elements where they were written)."""
+    from srctools import dmx
+    n = ck.budget(24, 400)
+    cases = []
+    corpus = [s for _, s, ms in CORPUS if any(m['fmt'] == 'kv2' for m in ms)]
+    for i in range(n):
+        uni = ck.rng.choice(['ascii', 'format', 'silent'])
+        cull = ck.rng.random() < 0.35
+        spec = corpus[i] if i < len(corpus) else U.gen_spec(ck.rng, uni != 'ascii')
+        if i >= len(corpus) and ck.rng.random() < 0.15:
+            spec['elems'][-1]['type'] = ck.rng.choice(U.KV2_AMBIGUOUS_TYPES)
+        elems = U.build(spec)
+        if any(a.name.casefold() == 'name' and a.name != 'name' for e in elems for a in e._members.values()):
+            continue
+        buf = io.BytesIO()
+        try:
+            elems[0].export_kv2(buf, flat=False, cull_uuid=cull, unicode=uni)
+        except Exception:
+            ck.count('corr_kv2n_export_error')
+            continue
+        data = buf.getvalue()
+        head = data.partition(b'\r\n')[0]
+        text = data.partition(b'\r\n')[2].decode('utf8' if uni != 'ascii' else 'ascii')
+        d = ntree_of(elems[0], cull)
+        try:
+            got, _, _ = dmx.Element.parse(io.BytesIO(data), unicode=(uni == 'silent'))
+            back = f'(Some {coq_list(coq_nelem(e) for e in ntree_of(got, cull))})'
+        except Exception:
+            back = 'None'
+            ck.count('corr_kv2n_impl_parse_error')
+        text2 = reformat_kv2(ck.rng, text)
+        try:
+            got2, _, _ = dmx.Element.parse(io.BytesIO(head + b'\r\n' + text2.encode('utf8' if uni != 'ascii' else 'ascii')), unicode=(uni == 'silent'))
+            back2 = f'(Some {coq_list(coq_nelem(e) for e in ntree_of(got2, cull))})'
+        except Exception:
+            back2 = 'None'
+            ck.count('corr_kv2n_impl_reformat_parse_error')
+        cases.append((spec, {'unicode': uni, 'cull_uuid': cull},
+                      f'({coq_list(coq_nelem(e) for e in d)}, {_cps(text)}, {back}, {_cps(text2)}, {back2})'))
+        ck.count('corr_kv2n_cases')
+        depth = text.count('\t\t\t\t')
+        ck.hist('corr_kv2n_has_depth3', bool(depth))
+        if len(d) > 1 or d[0][3]:
+            ck.seen(('k2n', uni, cull, repr(d)))
+    bad = []
+    for lo in range(0, len(cases), 45):
+        vals = ck.coq_eval(IMPORTS_KV2N, [f'bad_idx chk3 0 {coq_list(x[2] for x in cases[lo:lo + 45])}'], name='kv2n', preamble=PRE_KV2N)
+        if vals is None:
+            ck.obligation('correspondence:kv2-nested-text', False, 'model could not be evaluated')
+            ck.tie_broken.append('correspondence KV2 nested text: model evaluation failed')
+            return
+        bad += [(lo + v // 10, v % 10) for v in parse_coq_N_list(vals[0])]
+    ck.obligation('correspondence:kv2-nested-text', not bad,
+                  f'{len(cases)} documents: Fmt/DmxKv2Nested.v rendern_doc vs export_kv2(flat=False, cull_uuid) text (exact, roots '
+                  f'recomputed by the harness), parsen_text of that text vs the block tree of Element.parse: {len(bad)} disagreements')
+    if cases:
+        ck.sample({'kv2_nested_case': {'mode': cases[-1][1], 'spec': cases[-1][0]}})
+    if bad:
+        i, code = bad[0]
+        ck.tie_broken.append('correspondence KV2 nested text (Fmt/DmxKv2Nested.v vs export_kv2/parse_kv2)')
+        ck.extra['kv2_nested_disagreement'] = {'spec': cases[i][0], 'mode': cases[i][1],
+                                               'kind': {1: 'model text differs from export_kv2', 2: 'model parse differs from parse_kv2',
+                                                        3: 'generated document outside ndoc_ok',
+                                                        5: 'model parse of the re-formatted text differs from parse_kv2'}.get(code, code)}
+
+
+
+# ------------------------------------------------------------------------------------------------ value strings
+IMPORTS_VT = ['Coq.NArith.NArith', 'Coq.ZArith.ZArith', 'Coq.Lists.List', 'Coq.Bool.Bool', 'Coq.Strings.String', 'SV.Num.Dec6',
+              'SV.Fmt.DmxCodes', 'SV.Fmt.DmxValText', 'SV.Gen.DmxCodes_gen']
+PRE_VT = """Import ListNotations. Open Scope N_scope.
+Fixpoint leqb {A} (f : A -> A -> bool) (a b : list A) : bool :=
+  match a, b with [], [] => true | x :: a', y :: b' => f x y && leqb f a' b' | _, _ => false end.
+Definition s_eqb := leqb N.eqb.
+Definition oparts_eqb (a b : option (list (list N))) := match a, b with Some x, Some y => leqb s_eqb x y | None, None => true | _, _ => false end.
+Definition oz_eqb (a b : option Z) := match a, b with Some x, Some y => (x =? y)%Z | None, None => true | _, _ => false end.
+Definition ocol_eqb (a b : option (Z * Z * Z * Z)) := match a, b with
+  | Some (r, g, b0, a0), Some (r', g', b', a') => ((r =? r') && (g =? g') && (b0 =? b') && (a0 =? a'))%Z | None, None => true | _, _ => false end.
+Inductive vcase :=
+| CFloat (x : dyadic) (text : list N)                                  (* _fmt_float(x) *)
+| CVec (xs : list dyadic) (text : list N)                              (* TYPE_CONVERT[vector type, STRING] *)
+| CSplit (n : nat) (text : list N) (parts : option (list (list N)))    (* text.split() with the count check of parse_vector *)
+| CInt (z : Z) (text : list N)                                         (* str(z) *)
+| CIntParse (text : list N) (z : option Z)                             (* int(text) on plain decimals *)
+| CColor (r g b a : N) (text : list N)                                 (* TYPE_CONVERT[COLOR, STRING] *)
+| CColorParse (text : list N) (c : option (Z * Z * Z * Z))             (* _conv_string_to_color *)
+| CHex (bs : list N) (text : list N)                                   (* TYPE_CONVERT[BINARY, STRING] *)
+| CHexParse (text : list N) (bs : option (list N)).                    (* bytes.fromhex *)
+Definition obytes_eqb (a b : option (list N)) := match a, b with Some x, Some y => s_eqb x y | None, None => true | _, _ => false end.
+Definition chkv (c : vcase) : N := match c with
+  | CFloat x t => if s_eqb (float_text gen_float_fmt x) t then 0 else 1
+  | CVec xs t => if s_eqb (vec_text gen_float_fmt xs) t then 0 else 2
+  | CSplit n t p => if oparts_eqb (parse_parts py_space n t) p then 0 else 3
+  | CInt z t => if s_eqb (int_text z) t then 0 else 4
+  | CIntParse t z => if oz_eqb (parse_int t) z then 0 else 5
+  | CColor r g b a t => if s_eqb (color_text r g b a) t then 0 else 6
+  | CColorParse t c => if ocol_eqb (parse_color py_space t) c then 0 else 7
+  | CHex bs t => if s_eqb (hex_text bs) t then 0 else 8
+  | CHexParse t bs => if obytes_eqb (parse_hex ascii_space t) bs then 0 else 9
+  end.
+Fixpoint bad_idx {A} (f : A -> N) (n : N) (l : list A) : list N := match l with [] => [] | x :: r => (if f x =? 0 then [] else [n * 10 + f x]) ++ bad_idx f (n + 1) r end.
+"""
+
+
+def _dyadic(x: float) -> str:
+    import math
+    n, d = abs(x).as_integer_ratio()
+    e = -(d.bit_length() - 1)
+    return f'{{| dneg := {"true" if math.copysign(1.0, x) < 0 else "false"}; dm := {n}; de := ({e})%Z |}}'
+
+
+def _rand_double(rng) -> float:
+    r = rng.random()
+    if r < 0.25:
+        return _f32_val(_rand_f32(rng) & 0xBFFFFFFF if rng.random() < 0.5 else _f32_bits(rng.uniform(-400, 400)))
+    if r < 0.45:
+        return rng.choice([0.0, -0.0, 0.5, -0.5, 5e-7, -5e-7, 4.9999999e-7, 1.5e-6, 2.5e-6, 0.9999995, 0.9999994999, 123456.7890125,
+                           1e-7, -1e-7, 359.9999996, 1e15, -1e15, 0.1, 0.2 + 0.1, 1 / 3, 2 ** -30, 1e21, 123456789012345680.0])
+    if r < 0.75:
+        return round(rng.uniform(-1000, 1000), rng.choice([0, 1, 3, 6, 7]))
+    return rng.uniform(-1e6, 1e6) * 10 ** rng.randint(-8, 2)
+
+
+def corr_value_text(ck: Ck) -> None:
+    """Fmt/DmxValText.v (C05's exact '%.6f' model for FLOAT and the float vectors, decimal integers, colours, split)
+    vs dmx._fmt_float, TYPE_CONVERT[t, STRING], str.split / parse_vector's count check, int(), _conv_string_to_color."""
+    from srctools import dmx
+    from srctools.math import FrozenAngle, FrozenVec
+    n = ck.budget(300, 3000)
+    cases = []
+    S = dmx.ValueType.STRING
+    for i in range(n):
+        k = i % 9
+        if k == 7:
+            bs = bytes(ck.rng.choice([0, 255, 10, 171, ck.rng.randrange(256)]) for _ in range(ck.rng.choice([0, 1, 2, 5])))
+            cases.append(('hex', bs.hex(), f'(CHex {_nl(bs)} {_cps(dmx.TYPE_CONVERT[dmx.ValueType.BINARY, S](bs))})'))
+        elif k == 8:
+            text = ck.rng.choice(['', ' ', 'AB', 'ab cD', 'A B', '0', 'GG', '00\t11\n22', ' 0a0B ', '0a 0', '12  34', bytes(ck.rng.randrange(256) for _ in range(3)).hex(' ')])
+            try:
+                hl = f'(Some {_nl(dmx.TYPE_CONVERT[S, dmx.ValueType.BINARY](text))})'
+            except ValueError:
+                hl = 'None'
+            cases.append(('hex-parse', text, f'(CHexParse {_cps(text)} {hl})'))
+        elif k == 0:
+            x = _rand_double(ck.rng)
+            cases.append(('float', x, f'(CFloat {_dyadic(x)} {_cps(dmx._fmt_float(x))})'))
+        elif k == 1:
+            typ = ck.rng.choice(['VEC2', 'VEC3', 'VEC4', 'QUATERNION', 'ANGLE'])
+            cnt = {'VEC2': 2, 'VEC3': 3, 'VEC4': 4, 'QUATERNION': 4, 'ANGLE': 3}[typ]
+            xs = [abs(_rand_double(ck.rng)) % 360.0 if typ == 'ANGLE' else _rand_double(ck.rng) for _ in range(cnt)]
+            v = {'VEC2': dmx.Vec2, 'VEC3': FrozenVec, 'VEC4': dmx.Vec4, 'QUATERNION': dmx.Quaternion, 'ANGLE': FrozenAngle}[typ](*xs)
+            comps = [v.pitch, v.yaw, v.roll] if typ == 'ANGLE' else ([v.x, v.y, v.z] if typ == 'VEC3' else list(v))
+            text = dmx.TYPE_CONVERT[dmx.ValueType[typ], S](v)
+            cases.append((typ, xs, f'(CVec {coq_list(_dyadic(c) for c in comps)} {_cps(text)})'))
+        elif k == 2:
+            words = [ck.rng.choice(['1', '-0.5', '12.25', '0', '7e3', 'x']) for _ in range(ck.rng.randint(0, 5))]
+            text = ck.rng.choice(['', ' ', '\t']) + ck.rng.choice([' ', '  ', '\n', '\t ', '\x0b', ' ', ' ']).join(words) + ck.rng.choice(['', ' ', '\r\n'])
+            cnt = ck.rng.choice([len(words), len(words), 2, 3])
+            parts = text.split()
+            pl = f'(Some {coq_list(_cps(p_) for p_ in parts)})' if len(parts) == cnt else 'None'
+            cases.append(('split', text, f'(CSplit {cnt} {_cps(text)} {pl})'))
+        elif k == 3:
+            z = ck.rng.choice([0, 1, -1, 10, -10, 255, 2 ** 31 - 1, -2 ** 31, ck.rng.randrange(-10 ** 12, 10 ** 12), ck.rng.randrange(-1000, 1000)])
+            cases.append(('int', z, f'(CInt ({z})%Z {_cps(dmx.TYPE_CONVERT[dmx.ValueType.INTEGER, S](z))})'))
+        elif k == 4:
+            text = ck.rng.choice(['0', '-0', '7', '-12', '007', '123456789012', '-', '', '1x', '--1', '1-', '-00', str(ck.rng.randrange(-10 ** 9, 10 ** 9))])
+            try:
+                zl = f'(Some ({dmx.TYPE_CONVERT[S, dmx.ValueType.INTEGER](text)})%Z)'
+            except ValueError:
+                zl = 'None'
+            cases.append(('int-parse', text, f'(CIntParse {_cps(text)} {zl})'))
+        elif k == 5:
+            c = [ck.rng.choice([0, 255, 7, 10, 100, ck.rng.randrange(256)]) for _ in range(4)]
+            text = dmx.TYPE_CONVERT[dmx.ValueType.COLOR, S](dmx.Color(*c))
+            cases.append(('color', c, f'(CColor {c[0]} {c[1]} {c[2]} {c[3]} {_cps(text)})'))
+        else:
+            words = [str(ck.rng.choice([0, 5, 255, 300, -4, ck.rng.randrange(256)])) for _ in range(ck.rng.choice([3, 4, 4, 2, 5]))]
+            if ck.rng.random() < 0.1:
+                words[0] = 'r'
+            text = ck.rng.choice([' ', '  ', '\t']).join(words)
+            try:
+                # before clamping: the arguments handed to Color(...)
+                parts = text.split()
+                if len(parts) == 3:
+                    want = (int(parts[0]), int(parts[1]), int(parts[2]), 255)
+                elif len(parts) == 4:
+                    want = tuple(int(p_) for p_ in parts)
+                else:
+                    raise ValueError
+                got = dmx.TYPE_CONVERT[S, dmx.ValueType.COLOR](text)
+                clamp = tuple(max(0, min(255, v_)) for v_ in want)
+                if (got.r, got.g, got.b, got.a) != clamp:
+                    want = None
+                cl = 'None' if want is None else f'(Some (({want[0]})%Z, ({want[1]})%Z, ({want[2]})%Z, ({want[3]})%Z))'
+                if want is None:
+                    cl = '(Some (0%Z, 0%Z, 0%Z, (-1)%Z))'      # forces a disagreement: the implementation did not clamp int(parts)
+            except ValueError:
+                try:
+                    dmx.TYPE_CONVERT[S, dmx.ValueType.COLOR](text)
+                    cl = '(Some (0%Z, 0%Z, 0%Z, (-1)%Z))'      # the implementation accepted what int()/the count rule rejects
+                except ValueError:
+                    cl = 'None'
+            cases.append(('color-parse', text, f'(CColorParse {_cps(text)} {cl})'))
+        ck.count('corr_value_text_cases')
+        ck.hist('corr_value_text_kind', cases[-1][0])
+        ck.seen(('vt', cases[-1][0], repr(cases[-1][1])))
+    bad = []
+    for lo in range(0, len(cases), 600):
+        vals = ck.coq_eval(IMPORTS_VT, [f'bad_idx chkv 0 {coq_list(x[2] for x in cases[lo:lo + 600])}'], name='valtext', preamble=PRE_VT)
+        if vals is None:
+            ck.obligation('correspondence:kv2-value-text', False, 'model could not be evaluated')
+            ck.tie_broken.append('correspondence KV2 value text: model evaluation failed')
+            return
+        bad += [(lo + v // 10, v % 10) for v in parse_coq_N_list(vals[0])]
+    ck.obligation('correspondence:kv2-value-text', not bad,
+                  f'{len(cases)} cases: Fmt/DmxValText.v float_text / vec_text (exact %.6f model) vs _fmt_float and TYPE_CONVERT[vector, STRING], '
+                  f'parse_parts vs str.split + count check, int_text / parse_int vs str / int, color_text / parse_color vs the colour converters, hex_text / parse_hex vs bytes.hex / fromhex: '
+                  f'{len(bad)} disagreements')
+    if bad:
+        i, code = bad[0]
+        ck.tie_broken.append('correspondence KV2 value text (Fmt/DmxValText.v vs the string converters of dmx.py)')
+        ck.extra['value_text_disagreement'] = {'kind': cases[i][0], 'input': repr(cases[i][1]), 'code': code}
 
 
 # ------------------------------------------------------------------------------------------------ KV1 bridge
@@ -465,7 +1193,19 @@ def report_failure(ck: Ck, found: dict, spec: dict, mode: dict) -> None:
     if problem is None:
         small = spec
         problem, stage = U.roundtrip(small, mode)
-    key = f'{mode_class(small, mode)}:{U.classify(small)}'
+    cls = U.classify(small)
+    m = re.match(r"elem\[(\d+)\]\.attr\[(.+?)\](?:\[\d+\])? (value|type|length|array-ness)", problem or '')
+    if stage == 'compare' and m:
+        # the comparison names the attribute that differs: classify that attribute alone
+        try:
+            import ast as _ast
+            nm = _ast.literal_eval(m.group(2))
+            a = next(a for a in U.reachable_canon(small)['elems'][int(m.group(1))]['attrs'] if a[0] == nm)
+            vals = [0 if isinstance(v, int) and not isinstance(v, bool) and a[1] == 'ELEMENT' else v for v in a[3]]
+            cls = U.classify({'elems': [{'type': 'T', 'name': 'n', 'uuid': _U[0], 'attrs': [['a', a[1], a[2], vals]]}]})
+        except Exception:
+            pass
+    key = f'{mode_class(small, mode)}:{cls}'
     size = sum(len(e['attrs']) + 1 for e in small['elems'])
     if key not in found or size < found[key][3]:
         found[key] = (small, mode, f'{stage}: {problem}', size)
@@ -525,6 +1265,16 @@ OBLIGATIONS = {
     'codec_agrees_string_array': 'site_enc_agrees gen_cfg SiteArrayStr',
     'fixed_width_types_have_sizes': 'sizes_ok gen_cfg',
     'stub_uuid_written_after_index': 'stub_ok gen_cfg',
+    'struct_formats_parse': 'formats_known gen_scalar',
+    'struct_formats_are_the_wire_layout': 'formats_match_wire_layout gen_scalar',
+    'sizes_are_calcsize_of_formats': 'sizes_match_formats gen_scalar gen_cfg',
+    'multi_field_types_are_splatted': 'splat_ok gen_scalar',
+    'vector_types_rebuilt_with_their_class': 'ctor_classes_ok gen_ctor_classes',
+    'time_rounds_to_nearest_tick': 'time_rounds_to_nearest gen_scalar',
+    'time_scale_written_is_scale_read': 'time_scales_agree gen_scalar',
+    'matrix_pack_has_16_slots': 'mat_slots_16 gen_scalar',
+    'matrix_cells_read_where_written': 'mat_cells_read_where_written gen_scalar',
+    'matrix_cells_in_range': 'mat_cells_in_range gen_scalar',
     'kv2_type_escaped': 'kv2_type_escaped', 'kv2_name_escaped': 'kv2_name_escaped',
     'kv2_attribute_name_escaped': 'kv2_attrname_escaped', 'kv2_array_value_escaped': 'kv2_array_value_escaped',
     'kv2_scalar_value_escaped': 'kv2_scalar_value_escaped',
@@ -533,6 +1283,25 @@ OBLIGATIONS = {
     'kv2_array_value_uses_file_codec': 'kv2_array_value_uses_file_codec',
     'kv2_scalar_value_uses_file_codec': 'kv2_scalar_value_uses_file_codec',
     'kv2_stub_keeps_uuid': 'kv2_stub_keeps_uuid',
+    'kv2_scalar_reference_table_ok': 'rtable_ok gen_ref_scalar',
+    'kv2_array_reference_table_ok': 'rtable_ok gen_ref_array',
+    'kv2_reference_tables_agree': 'rtables_agree gen_ref_scalar gen_ref_array',
+    'kv2_stubs_written_by_reference': 'stub_by_reference gen_ref_scalar && stub_by_reference gen_ref_array',
+    'kv2_keyword_typed_elements_written_at_root': 'kv2_keyword_types_at_root',
+    'kv2_tokenizer_tables_ok': 'kv2_tables_ok gen_tables',
+    'kv2_tokenizer_options_ok': 'kv2_opts_ok gen_kv2_opts',
+    'kv2_type_keywords_stable': 'kv2_type_keywords_stable',
+    'kv2_element_and_string_are_types': 'kv2_element_and_string_are_types',
+    'kv2_literals_need_no_escape': 'kv2_literals_need_no_escape',
+    'kv2_text_premises': 'vtnames_ok gen_tables gen_fold gen_vtnames',
+    'unicode_modes_binary_reader_codec_is_writer_codec': 'hdr_bin_ok gen_hdr',
+    'unicode_modes_kv2_reader_codec_is_writer_codec': 'hdr_kv2_ok gen_hdr',
+    'unicode_modes_marked_mode_self_describing_ascii_stays_ascii': 'hdr_modes_ok gen_hdr',
+    'kv2_float_text_six_places_stripped': 'float_text_cfg_ok gen_float_fmt',
+    'kv2_vector_text_components_in_order': 'vec_text_components_ok gen_vec_text_written gen_vec_text_read',
+    'kv2_color_text_components': 'color_text_ok gen_color_text_written gen_color_text_read',
+    'kv2_scalar_text_functions': 'scalar_text_funcs_ok gen_int_text_funcs gen_float_text_funcs',
+    'kv2_binary_text_is_spaced_upper_hex': 'hex_text_ok gen_hex_sep gen_hex_group gen_hex_upper',
     'kv1_element_types_distinct': 'kv1_types_distinct gen_kv1',
     'kv1_keys_written_are_keys_read': 'kv1_keys_agree gen_kv1',
     'kv1_reserved_names_cover_name_and_subkeys': 'kv1_reserved_covers gen_kv1',
@@ -546,6 +1315,26 @@ EXPLAIN = {
     'instance:kv2_attribute_name_escaped': ['kv2', 'attr-name-needs-escape'],
     'instance:kv2_type_uses_file_codec': ['kv2', 'nonascii-element-type'],
     'instance:kv2_stub_keeps_uuid': ['kv2', 'stub'],
+    'instance:kv2_array_reference_table_ok': ['kv2', 'stub'],
+    'instance:kv2_scalar_reference_table_ok': ['kv2', 'stub'],
+    'instance:kv2_reference_tables_agree': ['kv2', 'stub'],
+    'instance:kv2_stubs_written_by_reference': ['kv2', 'stub'],
+    'correspondence:kv2-flat-text': ['kv2', ''],
+    'correspondence:kv2-nested-text': ['kv2', ''],
+    'correspondence:kv2-value-text': ['kv2', ''],
+    'instance:unicode_modes_binary_reader_codec_is_writer_codec': ['binary', 'nonascii'],
+    'instance:unicode_modes_kv2_reader_codec_is_writer_codec': ['kv2', 'nonascii'],
+    'instance:unicode_modes_marked_mode_self_describing_ascii_stays_ascii': ['', 'nonascii'],
+    'instance:kv2_float_text_six_places_stripped': ['kv2', 'float'],
+    'instance:kv2_vector_text_components_in_order': ['kv2', ''],
+    'instance:kv2_color_text_components': ['kv2', 'color'],
+    'instance:kv2_keyword_typed_elements_written_at_root': ['kv2', 'element-type-is-value-type-name'],
+    'instance:time_rounds_to_nearest_tick': ['binary', 'time'],
+    'instance:time_scale_written_is_scale_read': ['binary', 'time'],
+    'instance:matrix_cells_read_where_written': ['binary', 'matrix'],
+    'instance:matrix_pack_has_16_slots': ['binary', 'matrix'],
+    'correspondence:scalar-codecs': ['binary', ''],
+    'correspondence:binary': ['binary', ''],
 }
 
 
@@ -575,23 +1364,43 @@ def run(ck: Ck) -> None:
                'types scalar/array/empty; names, types and strings from pools with escapes, spaces, unicode) x (binary v1-5 | KV2 '
                'flat/nested/cull_uuid) x 3 unicode modes, non-trivial = more than one element or at least one attribute, distinct by '
                'canonical graph + mode; KV1: random Keyvalues trees (depth <= 3, reserved/duplicate/case-variant names, nested roots), '
-               'in memory and through binary/KV2 files, non-trivial = block with >= 2 children; correspondence cases likewise')
-    ck.trusted.append('hand-written models Fmt/DmxBin.v, Fmt/DmxKv1.v (tied by byte-exact / structural differential runs on every run)')
-    ck.trusted.append('harness/c14_util.py canon(): breadth-first numbering of the object graph and wire bytes of fixed-width values (plain struct)')
+               'in memory and through binary/KV2 files, non-trivial = block with >= 2 children; correspondence cases likewise; '
+               'scalar codecs: values of the 11 fixed-width types (int32 bounds and beyond, binary32 patterns incl. +-0, subnormals, '
+               'infinities, tick-exact / half-tick / arbitrary times, colour bytes, matrices), distinct by type + value; KV2 text: the same '
+               'graph generator exported flat / nested (15 % with a keyword-typed element, 35 % cull_uuid), distinct by string-level document; '
+               'value strings: doubles as exact dyadics incl. sixth-place ties, vectors, blank-separated texts, decimal and malformed '
+               'integers, colour and hex texts, distinct by kind + input')
+    ck.trusted.append('hand-written models Fmt/DmxBin.v, Fmt/DmxKv1.v, Fmt/DmxScalar.v, Fmt/DmxKv2.v, Fmt/DmxKv2Nested.v, Fmt/DmxValText.v '
+                      '(each tied by a byte-/text-exact or structural differential run on every run); shared models Bin/Struct.v, '
+                      'Text/Tokenizer.v (C02), Num/Dec6.v (C05)')
+    ck.trusted.append('harness/c14_util.py canon(): breadth-first numbering of the object graph; checks/c14.py wire_bytes (plain struct, for the '
+                      'binary body correspondence), ntree_of (root selection of the nested layout recomputed for the text comparison), '
+                      'float <-> binary32 pattern conversion with struct "<f" when writing Coq literals')
     ck.assumptions += [
         'Python str.encode/bytes.decode are inverse on the strings used and produce no NUL for NUL-free text (str_ok is a premise per string)',
-        'uuid.UUID(str(u)) == u; struct pack/unpack is the identity on values representable in the wire type',
+        'uuid.UUID(str(u)) == u and str(u) is injective (the KV2 models compare UUID texts)',
+        'binary64 * and / are rn64 of the exact result at the operands of the TIME codec (no overflow / subnormals there); compared with '
+        'CPython on every run (correspondence:scalar-codecs), |rn64 x - x| <= 2^-53 |x| is proved',
+        'FrozenAngle(x, y, z) keeps components that are binary32 values in [0, 360) (run-time obligation on sampled patterns)',
         'attribute names of one element are distinct after casefold (true of every Element: _members is keyed by the casefolded name)',
-        'str.casefold fixes "name" and "subkeys" and does not map "value" to "name" (checked at run time)',
+        'str.casefold is the per-character table of the running CPython (regenerated); it fixes "name", "subkeys" and the type keywords',
+        'float(text) is the correctly rounded value of the decimal (CPython strtod); str(float) round-trips (TIME / MATRIX text): oracle only',
     ]
-    ok_t = ck.translate('DmxCodes_gen', c14_dmx.translate)
+    from translate import c02_tables
+    ok_t = ck.translate('EscTables_gen', c02_tables.translate) and ck.translate('DmxCodes_gen', c14_dmx.translate)
     side = ck.extra.get('translated', {}).get('DmxCodes_gen', {})
     built = ok_t and ck.build(['Gen/DmxCodes_gen.vo', 'Props/C14.vo'])
     if built:
         ck.theorems('Props/C14.v')
         ck.instance_obligations(IMPORTS, OBLIGATIONS)
         runtime_agreement(ck, side)
+        angle_norm_identity(ck)
+        corr_scalar(ck)
         corr_binary(ck)
+        corr_kv2(ck)
+        corr_keyword_predicate(ck)
+        corr_kv2_nested(ck)
+        corr_value_text(ck)
         corr_kv1(ck)
     search_graphs(ck)
     search_kv1(ck)
